@@ -439,6 +439,25 @@ func c20CheckR(res *Result, in []byte, rs []rop, sts []rstate) {
 			res.Violate("C20.reader-out-of-bounds", fmt.Sprintf("read %d consumed %d of %d", i, consumed, len(in)-pos), rep)
 			return
 		}
+		need := 0
+		switch rs[i].kind {
+		case "n1":
+			need = 1
+		case "n2":
+			need = 2
+		case "n4":
+			need = 4
+		case "n8":
+			need = 8
+		case "cn", "rn", "nb", "rb":
+			need = rs[i].n
+		case "c":
+			need = len(s.val) + 1 // the value and its NUL terminator
+		}
+		if consumed != need {
+			res.Violate("C20.read-succeeds-without-input", fmt.Sprintf("read %d (%s) reported success but consumed %d octets where %d are required", i, rs[i].String(), consumed, need), rep)
+			return
+		}
 		if !s.isNum && !bytes.HasPrefix(in[pos:], s.val) {
 			res.Violate("C20.reader-out-of-bounds", fmt.Sprintf("read %d returned octets that are not the next input octets", i), rep)
 			return
